@@ -19,7 +19,8 @@ RULE = ("Episodes = 1-2 nets (feeder/four_bus/case9 with seeded defects: overloa
         "issues the next op (new client, register probe function, diagnose_network with seeded options, report). "
         "Non-trivial = a diagnose_network call whose result was compared with the per-instance model and with the "
         "same call in a fresh forked process; distinct = distinct (client history abstracted to op kinds on this "
-        "and on other clients before the call, option keys, add_default flag).")
+        "and on other clients before the call, option keys, add_default flag)."
+        ' All 19 diagnostic function classes registered (option-dependent ones more often), further seeded network defects, a run= callable failing at planned power flows, returned result dicts must not change later.')
 COMPONENTS = {"real": ["pandapower.diagnostic.Diagnostic and all default diagnostic functions (incl. the power flows "
                        "they run)", "fresh forked interpreter for the isolation oracle"],
               "stub": ["probe DiagnosticFunction (records the kwargs it receives)", "DiagnosticModel"]}
